@@ -157,6 +157,42 @@ func r10a(c *an.Ctx) {
 	}
 }
 
+// endWriteGuardAllowed: guard atoms under which an end-of-run timestamp may be recorded: the FSM event or state
+// selecting the branch (comparison of e.Event / e.Src / CurrentState() with a constant string), and the still-empty test
+// on the same variable.
+func endWriteGuardAllowed(a an.Atom, key string) bool {
+	get := func(v ssa.Value, idx int) bool {
+		ex, ok := v.(*ssa.Extract)
+		if !ok || ex.Index != idx {
+			return false
+		}
+		call, ok := ex.Tuple.(*ssa.Call)
+		if !ok || an.MethodName(&call.Call) != "Get" {
+			return false
+		}
+		args := an.Args(&call.Call)
+		if len(args) < 2 {
+			return false
+		}
+		k, isK := an.ConstString(args[1])
+		return isK && k == key
+	}
+	if a.Y == nil {
+		return get(a.X, 1)
+	}
+	if _, isS := an.ConstString(a.Y); isS && (a.Op == token.EQL || a.Op == token.NEQ) {
+		if get(a.X, 0) || isFieldNamed(a.X, "Event") || isFieldNamed(a.X, "Src") || isFieldNamed(a.X, "Dst") {
+			return true
+		}
+		if call, ok := a.X.(*ssa.Call); ok {
+			if n := an.MethodName(&call.Call); n == "CurrentState" || n == "Current" {
+				return true
+			}
+		}
+	}
+	return false
+}
+
 // emptyGuarded: block b is guarded by `v, ok := X.Get(key); ok && v == ""`.
 func emptyGuarded(b *ssa.BasicBlock, key string) bool {
 	okSeen, emptySeen := false, false
@@ -231,6 +267,43 @@ func r10bc(c *an.Ctx) {
 		}
 		sites = append(sites, site{roleOf[w.fn], w.key, ev, g})
 		k := fmt.Sprintf("%s|%s|%s", roleOf[w.fn], ev, w.key)
+		// "however the run ends": beyond the event / state selection and the still-empty test, recording the end of the
+		// run may depend on nothing else
+		var extra []string
+		// the selector: the innermost dominating test of the event (e.Event == "...") or of the RUNNING state
+		var selector *ssa.BasicBlock
+		for _, g := range an.Guards(w.call.Block()) {
+			for _, a := range an.CondAtoms(g.V, g.Val) {
+				if a.Y == nil {
+					continue
+				}
+				if _, isS := an.ConstString(a.Y); !isS {
+					continue
+				}
+				isSel := isFieldNamed(a.X, "Event") || isFieldNamed(a.X, "Src")
+				if call, ok := a.X.(*ssa.Call); ok && an.MethodName(&call.Call) == "CurrentState" {
+					isSel = true
+				}
+				if isSel && (selector == nil || selector.Dominates(g.If.Block())) {
+					selector = g.If.Block()
+				}
+			}
+		}
+		for _, g := range an.Guards(w.call.Block()) {
+			if g.LoopHeader || g.LoopExit || selector == nil || g.If.Block() == selector || !selector.Dominates(g.If.Block()) {
+				continue
+			}
+			for _, a := range an.CondAtoms(g.V, g.Val) {
+				if endWriteGuardAllowed(a, w.key) {
+					continue
+				}
+				extra = append(extra, c.PosStr(atomPos(a)))
+			}
+		}
+		if selector == nil {
+			extra = append(extra, "no event/state selector found")
+		}
+		c.Ob(k+"|no-other-condition", w.call.Pos(), len(extra) == 0, "recording %s on this way of ending a run depends on an additional condition (at %v): when it does not hold (e.g. the run number was already reset by a failed START_ACTIVITY) the run ends without its end timestamp and end-of-run event", w.key, extra)
 		if roleOf[w.fn] == "core/environment.newEnvironment[after_event]" && ev == "STOP_ACTIVITY" && w.key == "run_end_completion_time_ms" {
 			c.Allowed("R10b: after_STOP_ACTIVITY writes run_end_completion_time_ms unconditionally; it runs once per run by the FSM graph (STOP_ACTIVITY only leaves RUNNING)")
 			c.Ob(k, w.call.Pos(), true, "allow-listed unconditional write (once per run by the FSM graph)")
